@@ -96,6 +96,79 @@ CHECKS = [
              'deterministic stepped event loop replaces real sockets.',
      'technique': PBT + 'a per-stream reference model (sent == received, EOF '
                   'last)'},
+    {'id': 'C08', 'memwire': True,
+     'text': 'Sender side: asyncssh (server or client application) writes to '
+             'an independent peer advertising generated windows (0, 1, ... 2 '
+             'MiB) and maximum packet sizes (1 ... 32768) and granting '
+             'WINDOW_ADJUSTs at generated moments; the peer keeps the RFC '
+             '4254 5.2 running sums from the wire (no packet above the '
+             'maximum, cumulative bytes never above the grant) and at every '
+             'quiescent point received == min(written, granted) (no stall, no '
+             'deadlock). Receiver side: a peer sending inside / exactly at / '
+             'beyond the window asyncssh granted while the application reads '
+             'or has reading paused: inside => delivered in order and the '
+             'window is replenished; beyond => protocol error and nothing of '
+             'the excess delivered.',
+     'note': 'refpeer accounting is the reference; oversize-but-inside-window '
+             'packets may be accepted or rejected; liveness in bounded form '
+             '(quiescence of a loop without real I/O).',
+     'technique': 'PBT with an independent wire-level flow-control '
+                  'accounting model (differential running sums)'},
+    {'id': 'C11', 'memwire': True,
+     'text': 'Re-exchanges triggered by byte limits from one packet upward, a '
+             'virtual-clock time limit, the peer, or both at once, repeated, '
+             'with cipher/MAC changes between exchanges, while applications '
+             'write on 1..3 channels, open sessions and send exit-status '
+             'requests. asyncssh<->asyncssh: every byte, open and request '
+             'arrives once and in order. asyncssh<->independent peer: the '
+             'peer decodes the whole wire with keys derived from the ORIGINAL '
+             'session id and each new (K,H) (so decoding succeeds only if '
+             'asyncssh derived fresh keys the same way), checks that nothing '
+             'but transport/kex messages appears between asyncssh\'s KEXINIT '
+             'and NEWKEYS, that K and H differ per exchange and that '
+             'get_extra_info reflects the new negotiation.',
+     'note': 'refpeer trusted as in C02; number of re-exchanges in the pair '
+             'family read from the asyncssh debug log; virtual clock patches '
+             'time.monotonic.',
+     'technique': 'model-based PBT of histories across re-keying + '
+                  'differential decoding by an independent peer'},
+    {'id': 'C14', 'memwire': True,
+     'text': 'Server under test driven at the SFTP framing level (all 21 '
+             'request types and 9 extensions, versions 3-6, bodies valid / '
+             'truncated at each field or byte / with trailing bytes / unknown '
+             'type / unknown extension, pipelined, injected OSError and '
+             'SFTPError): multiset of reply ids == request ids, reply type '
+             'legal for the request, BAD_MESSAGE / OP_UNSUPPORTED and errno '
+             'mapping per version, session stays usable. Client under test '
+             'against a scripted server answering k outstanding calls in '
+             'generated order with wrong types, unknown/duplicate ids: every '
+             'caller gets its own tagged reply or a documented SFTPError, '
+             'never a cross-delivery or a hang. Attribute/name codecs: every '
+             'flag subset per version (v6: all 65536 in thorough) against an '
+             'independent struct-level encoder/decoder.',
+     'note': 'Independent attribute encoder written from the filexfer drafts '
+             '(v5 BITS and ranges@asyncssh.com round-trip only); reply '
+             'legality table in the module; fixture tree in /dev/shm.',
+     'technique': 'PBT + exhaustive flag-subset enumeration against a '
+                  'protocol reference table and an independent codec'},
+    {'id': 'C20', 'memwire': True,
+     'text': 'SOCKS4/4a/5 byte streams in every chunking against a reference '
+             'parser (connect exactly to the reference destination or close; '
+             'trailing bytes relayed; no exception escapes); permission '
+             'predicate (application x authorized_keys options x certificate '
+             'options x permitopen) for direct/forwarded TCP and UNIX '
+             'requests on the in-memory pair; end-to-end relay over real '
+             '127.0.0.1 / UNIX sockets for 11 forwarding kinds with generated '
+             'interleavings, early data, half-close with later reverse data, '
+             'close/abort from each end; release of listeners and sockets '
+             '(/proc inode diff) after close, abort or connection loss; '
+             'OpenSSH ssh -L/-R/-D interop.',
+     'note': 'Real-socket families use probe-confirmed waits (a machine '
+             'stall cannot produce a verdict; harness timeouts exit 2); reads '
+             'of _channels/_transport listed in ASSUMPTIONS.',
+     'technique': 'PBT against a reference SOCKS parser and a reference '
+                  'permission predicate; stream-equality oracles on real '
+                  'sockets; differential interop with OpenSSH'},
 ]
 
 _BUILT = {c['id'] for c in CHECKS}
